@@ -15,7 +15,7 @@ import time
 VERIF = os.path.dirname(os.path.dirname(os.path.abspath(__file__)))
 REPO = os.environ.get("COCO_REPO", "/repo")
 LEAN_DIR = os.path.join(VERIF, "lean")
-DRIVER = os.path.join(LEAN_DIR, ".lake", "build", "bin", "driver")
+DRIVER = os.environ.get("COCO_DRIVER") or os.path.join(LEAN_DIR, ".lake", "build", "bin", "driver")
 EVIDENCE_DIR = os.path.join(VERIF, "evidence")
 REPLAY_DIR = os.path.join(EVIDENCE_DIR, "replay")
 CACHE_DIR = os.path.join(VERIF, ".cache")
